@@ -17,9 +17,10 @@ def doc_of_expat(resp):
             continue
         if e[0] == 'C':
             if out and out[-1][0] == 'C':
-                out[-1] = ('C', out[-1][1] + e[1], out[-1][2] or in_cd)
+                # (3rd field: some piece came from a CDATA section; 4th: CDATA and plain pieces are mixed)
+                out[-1] = ('C', out[-1][1] + e[1], out[-1][2] or in_cd, out[-1][3] or (out[-1][2] != in_cd))
             else:
-                out.append(('C', e[1], in_cd))
+                out.append(('C', e[1], in_cd, False))
         elif e[0] == 'S':
             out.append(('S', e[1], list(e[2])))
         else:
@@ -59,6 +60,19 @@ class Norm:
         self.dt_attrs = {b'created', b'si-expires'} if lid == 1301 else {b'timestamp'} if lid == 1701 else set()
         self.syncml = lid in (2001, 2101, 2201)
         self.strict_lineends = False
+        self.typed = set(self.binary)
+        try:
+            import os, re as _re
+            src = open(os.path.join(os.path.dirname(os.path.dirname(os.path.abspath(__file__))), 'lean', 'Wbxml', 'Model', 'TypedExpected.lean')).read()
+            for m in _re.finditer(r'⟨(true|false), (\d+), (\d+), (\d+), \[([0-9,]*)\], (\d+), (\d+)⟩', src):
+                if m.group(1) == 'false' and int(m.group(2)) == lid:
+                    self.typed.add(bytes(int(x) for x in m.group(5).split(',') if x))
+        except OSError:
+            pass
+        if lid == 1801:
+            self.typed.add(b'ds:KeyValue')
+        if self.syncml:
+            self.typed.add(b'NextNonce')
         self.dst_binary_raw = False       # the right-hand side carries opaque octets, not their base64 text (C06)
 
     def same_name(self, a, b):
@@ -215,8 +229,15 @@ def excuses_scoped(norm, src):
                 # vObject payloads are carried in a CDATA section, where a carriage return cannot be escaped, and
                 # lone line feeds are turned into CR LF by the encoder
                 add('[syncml-vobject-carriage-return]', b'Data')
+            if len(e) > 2 and e[2] and e[1] != e[1].strip(WS):
+                # white space at the edges of a CDATA section survives the first conversion and not the second
+                add('[cdata-edge-whitespace]', stack[-1] if stack else ANY)
             if len(e) > 2 and e[2]:
-                add('[cdata-in-typed-element]' if typed_langs else '[cdata-adjacent-to-text]', stack[-1] if stack else ANY)
+                # CDATA in an element whose content is typed; CDATA next to ordinary text in one element
+                if stack and stack[-1] in norm.typed:
+                    add('[cdata-in-typed-element]', stack[-1])
+                elif len(e) > 3 and e[3]:
+                    add('[cdata-adjacent-to-text]', stack[-1] if stack else ANY)
             if stack and (stack[-1] in norm.binary or (norm.lang['id'] == 1801 and stack[-1] == b'ds:KeyValue')):
                 try:
                     b64_lenient(e[1])
@@ -309,6 +330,8 @@ def compare_at(norm, src, dst, keep_ws):
                     tag = ' [syncml-mime-rewrite-outside-type]'
                 if norm.wv and len(x) > 2 and x[2]:
                     tag = ' [cdata-in-typed-element]'
+                if norm.syncml and len(x) > 2 and x[2] and x[1].replace(b'\r\n', b'\n').replace(b'\r', b'\n') == y[1].replace(b'\r\n', b'\n').replace(b'\r', b'\n'):
+                    tag = ' [syncml-cdata-lf-crlf]'
                 if norm.wv and re.fullmatch(rb'\d{8}T\d{4}(\d\d)?', x[1].strip(WS)) and y[1].strip(WS) == x[1].strip(WS) + b'Z':
                     tag = ' [wv-datetime-without-zone]'
                 return f'text in <{local(stack[-1]).decode("latin-1") if stack else ""}>: {x[1][:60]} vs {y[1][:60]}' + tag, (local(stack[-1]) if stack else None)
